@@ -66,7 +66,7 @@ REQUIRED = dict(
              'bin:targets-overlap-each-other', 'bin:spans-native-gap',
              'ndim:1', 'ndim:2', 'error:yes', 'error:no', 'native-order:shuffled', 'target-order:shuffled',
              'call:2d-with-error', 'route:bin_model', 'route:forward-model', 'same-binner:narrower-widths',
-             'same-binner:derived-widths', 'same-binner:other-grid-same-length', 'same-binner:first-again',
+             'same-binner:derived-widths', 'same-binner:other-grid-same-length', 'same-binner:first-again', 'same-binner:dozens-of-native-grids-earlier-ones-again',
              'same-binner:other-spacing-same-ends-new-binner', 'same-binner:same-arrays-refilled-in-place', 'target:integer-centres',
              'bin_model:again:same', 'bin_model:again:other-spacing', 'bin_model:again:shuffled', 'bin_model:again:other-spectrum'])
 EPS = float(np.finfo(float).eps)
@@ -749,6 +749,22 @@ def wl_flux(ctx, rng):
         steps.append(kind)
     for k in steps:
         ctx.observe('same-binner:' + k)
+    if ctx.case['index'] % 60 == 9:
+        # (f) a long history on the SAME binner object (one binner for a whole campaign of targets): dozens of different
+        #     native grids, earlier ones coming back in between and at the end; the tap judges every execution
+        grids = []
+        ng = int(rng.integers(25, 45)) if ctx.tier == 'quick' else int(rng.integers(60, 200))
+        for j in range(ng):
+            c_, w_, _ = gen_native(rng)
+            grids.append((c_, gen_spectrum(rng, c_, 1), w_))
+            guarded(B.bindown, c_, grids[-1][1], grid_width=w_)
+            if j % 3 == 2:
+                c0_, f0_, w0_ = grids[int(rng.integers(0, max(j // 2, 1)))]
+                guarded(B.bindown, c0_, f0_, grid_width=w0_)
+        for j in rng.integers(0, ng // 2, 6):
+            c0_, f0_, w0_ = grids[int(j)]
+            guarded(B.bindown, c0_, f0_, grid_width=w0_)
+        ctx.observe('same-binner:dozens-of-native-grids-earlier-ones-again')
 
 
 def wl_flux2derr(ctx, rng):
